@@ -43,6 +43,24 @@ if os.path.exists(f"{ROOT}/selftest/RESULTS.jsonl"):
 d += "\n---------------------------------------------------------------------------------------\n\n## Appendix B. Seeded changes and which checks catch them\n\n"
 d += "### B.1 Changes written by independent sub-agents (`/verif/seeded/<id>/`)\n\nEach agent saw only the text of one property and a scratch worktree. Every claim was re-confirmed by `selftest/confirm_seeded.py` (patch applies to the current tree; unedited suite 67/67 green with it; the agent's demo fails with it and passes without), then the property's quick check was run against the patched scratch copy. \"strengthened\" = the check as it stood missed the change and was extended (generically, not for this input) until it caught it.\n\n| id | property | change (needs, to manifest) | caught by (first signatures) | note |\n|---|---|---|---|---|\n"
 notes_strength = {
+ "agent11-C01": "strengthened: missed at first; letter-case twins - for every form and every letter, two lines that differ only in the letter case of the mnemonic and registers (which means nothing) and of a character-literal operand (which is another number), in one build and in two builds that follow each other on one thread",
+ "agent11-C02": "strengthened: missed at first; `.byte` with a size that is not a plain number (through .equ, .set - assigned once, twice, again later -, a sum, parentheses, a function, a product, an .equ defined later) in .eseg and .dseg between two labels whose distance the code reads: laid out properly, refused, or nothing reserved anywhere (the listed finding) - labels and bytes that disagree with each other are another signature",
+ "agent11-C03": "strengthened: missed at first; filler mix 100 - the program begins with `.device ATtiny20` and the words between branch and target hold the one-word lds / sts of the reduced core",
+ "agent11-C04": "caught as the check stood (registers through .def aliases on the reduced core)",
+ "agent11-C05": "strengthened: missed at first; a history program that defines the names the monitors' own programs use (with other values, each worked out at length) and ends because the evaluation budget of the whole build runs out in the middle of an expression over them; C05 builds it directly in front of twelve symbol expressions per run",
+ "agent11-C06": "strengthened: missed at first; sibling data lines - equal up to a character some scanner stops at (`;` `//` `/*` `:` `,` `@0` `#` `=` ... inside a string or character literal) or equal but for letter case / blanks inside a literal, in one build (each line also following itself) and in builds that follow each other, flash and EEPROM",
+ "agent11-C07": "caught as the check stood (one path rewritten with shrinking images, added after round 9)",
+ "agent11-C08": "strengthened: missed at first; 260 and 70000 (thorough up to 140000) complete chains of twelve shapes one after the other, also inside a macro body, against the program with the unselected lines deleted",
+ "agent11-C09": "strengthened: missed at first; 66000 and 140000 (thorough up to 1050000) calls in one source (one-line body with parameter, two-line body, wrapper calling two others, two macros in turn with data, calls between segment switches) against the lines written out",
+ "agent11-C10": "strengthened: missed at first; an undefined name in an operand that cannot change the value (18 shapes: `0 && x`, `1 || x`, `x * 0`, `x - x`, `low(0 && x)` ...) in .dw / ldi / .set / .if / .db must fail the build",
+ "agent11-C11": "strengthened: missed at first; the file that lists search directories is itself reached through one or two files that do nothing but include the next one",
+ "agent11-C12": "caught as the check stood (reservations of 2^32 + k units in isolated workers)",
+ "agent11-C13": "strengthened: missed at first; the second `.device` line of the must-fail programs also sits in an included file (alone, or among the .equ lines of a part file)",
+ "agent11-C14": "strengthened: missed at first; meaningless lines in volume - 130 / 2000 comment-only, blank and whitespace-only lines inside a macro body called 34000 / 2200 times, 1.2 million of them between the lines of a program, 900000 in unassembled text",
+ "agent11-C15": "strengthened: missed at first; new fault kind: a line holding only a character the language gives no meaning to (NBSP, form feed, vertical tab, U+3000, U+2028, NEL, zero-width space), alone or in front of a comment",
+ "agent11-C16": "strengthened: missed at first; nesting ladders behind strings and character literals that end in, or hold, a backslash, a backslash-quote, a doubled quote or comment openers (ten prefixes)",
+ "agent11-C17": "caught as the check stood (failing programs whose unknown name begins several known names, built in child processes and on many threads)",
+ "agent11-C18": "caught as the check stood (write faults on /dev/full for images of every size)",
  "agent1-C02": "strengthened: C02's strings were ASCII only; non-ASCII strings added (C06 caught it as it stood)",
  "agent1-C03": "strengthened: far targets (±2^k ± small, pc-relative and labels via .org) added to C03",
  "agent1-C04": "strengthened: complete register x register / boundary cross product for two-operand forms added to C04",
